@@ -249,6 +249,11 @@ func NewTypecast(scope *types.Scope, imports util.ImportNames, t types.Type, inn
 	var expr string
 	switch typ := util.DerefPtr(t).(type) {
 	case *types.Named:
+		if typ.Obj().Pkg() == nil {
+			// A predeclared type such as "error".
+			expr = typ.Obj().Name()
+			break
+		}
 		// If the type is defined within the current package.
 		if scope.Lookup(typ.Obj().Name()) != nil {
 			expr = typ.Obj().Name()
